@@ -54,7 +54,7 @@ CHECKS = {
 
  "C04": ("vrt",
    "property-based fuzzing (proptest byte / fault generators, shrinking) of the three decoders with no-panic, over-read, allocation-bound and watchdog oracles",
-   "UperReader and ProtobufReader for every type of the compiled zoo and the DER reader primitives are fed random byte strings (incl. hostile self-delimiting numbers at every bit offset and TLV-shaped DER input with every length form) with a random declared bit length and valid encodings of generated values carrying 1..3 faults (truncate to a bit, flip, insert, delete, overwrite with boundary bytes, duplicate a chunk). Per case: no panic, position <= declared length, same result when all bits beyond the declared length are flipped and bytes appended, peak allocation <= 64 MiB + 64 KiB x input bytes (counting global allocator), no case over 10 s (confirmed 3x in isolation). Sampled exploration; coverage-guided libFuzzer targets extend it in the thorough tier.",
+   "UperReader and ProtobufReader for every type of the compiled zoo and the DER reader primitives are fed random byte strings (incl. hostile self-delimiting numbers at every bit offset and TLV-shaped DER input with every length form) with a random declared bit length and valid encodings of generated values carrying 1..3 faults (truncate to a bit, flip, insert, delete, overwrite with boundary bytes, duplicate a chunk). Per case: no panic, position <= declared length, same result when all bits beyond the declared length are flipped and bytes appended, peak allocation <= 64 MiB + 64 KiB x input bytes (counting global allocator), no case over 20 s of CPU time (confirmed 3x in isolation). Sampled exploration; coverage-guided libFuzzer targets extend it in the thorough tier.",
    "A hang is reported as violation only after three isolated confirmations; otherwise exit 2. Allocation bound is the harness's reading of 'bounded'.",
    "5/C04"),
  "C07": ("vfront",
@@ -84,7 +84,7 @@ CHECKS = {
    "5/C13"),
  "C14": ("vfront",
    "mutation-based fuzzing of the front end (proptest edit generators over valid texts + token soups) with a no-panic / error-location oracle and watchdog",
-   "Generator output and the literal modules of /repo/tests receive 1..4 edits - syntactic (delete, duplicate, swap, insert, replace, truncate, over-long number, open comment) and well-formed-but-odd (swap two numbers, boundary numbers, import from the own module, non-ASCII characters inside literals, snippets with alias cycles / recursive types / cyclic values / unknown names / duplicates) - or are replaced by token soups; a twin module makes every import mutual; Tokenizer -> Model::try_from -> try_resolve / MultiModuleResolver -> to_rust -> to_protobuf must return Ok or Err: no panic (except the documented unclosed-comment panic on a really unterminated '/*'), error tokens inside the input, no case over 10 s.",
+   "Generator output and the literal modules of /repo/tests receive 1..4 edits - syntactic (delete, duplicate, swap, insert, replace, truncate, over-long number, open comment) and well-formed-but-odd (swap two numbers, boundary numbers, import from the own module, non-ASCII characters inside literals, snippets with alias cycles / recursive types / cyclic values / unknown names / duplicates) - or are replaced by token soups; a twin module makes every import mutual; Tokenizer -> Model::try_from -> try_resolve / MultiModuleResolver -> to_rust -> to_protobuf must return Ok or Err: no panic (except the documented unclosed-comment panic on a really unterminated '/*'), error tokens inside the input, no case over 20 s of CPU time.",
    "Sampled; coverage-guided libFuzzer target extends it in the thorough tier.",
    "5/C14"),
  "C15": ("vfront",
